@@ -42,6 +42,9 @@ pub trait Flav: Sized + Clone + PartialEq + Hash + Encode + Decode {
     fn from_bytes_(b: &[u8]) -> Result<Self, ()>;
     fn into_bytes_(self) -> Vec<u8>;
     fn observe(&self) -> (usize, String, usize, Option<usize>, bool, Vec<u8>);
+    fn get_(&self, i: usize) -> Result<bool, ()>;
+    fn raw_(&self) -> Vec<u8>;
+    fn empty_(&self) -> bool;
 }
 
 macro_rules! common_flav {
@@ -60,6 +63,15 @@ macro_rules! common_flav {
         }
         fn into_bytes_(self) -> Vec<u8> {
             self.into_bytes().to_vec()
+        }
+        fn get_(&self, i: usize) -> Result<bool, ()> {
+            self.get(i).map_err(|_| ())
+        }
+        fn raw_(&self) -> Vec<u8> {
+            self.clone().into_raw_bytes().to_vec()
+        }
+        fn empty_(&self) -> bool {
+            self.is_empty()
         }
         fn observe(&self) -> (usize, String, usize, Option<usize>, bool, Vec<u8>) {
             (
@@ -190,7 +202,10 @@ fn observe_reg<F: Flav>(regs: &[Option<F>; 4], r: usize, status: u8, sub: Option
         None => format!("{}|0|0|(bits)|0|-|0|-|-|-|-|{}", status, subs),
         Some(b) => {
             let (len, bits, nsb, hsb, zero, slice) = b.observe();
-            let ssz = b.as_ssz_bytes();
+            let ssz_hex = match catch(|| b.as_ssz_bytes()) {
+                Caught::Val(v) => hex(&v),
+                Caught::Panic => "panic".to_string(),
+            };
             let eq: String = regs
                 .iter()
                 .map(|x| match x {
@@ -216,7 +231,7 @@ fn observe_reg<F: Flav>(regs: &[Option<F>; 4], r: usize, status: u8, sub: Option
                 hsb.map(|h| h.to_string()).unwrap_or_else(|| "-".into()),
                 zero as u8,
                 hex(&slice),
-                hex(&ssz),
+                ssz_hex,
                 eq,
                 hash,
                 subs
@@ -346,6 +361,85 @@ pub fn run_history<F: Flav>(ctx: &mut Ctx, ops: &[Op]) {
         obs.join(";")
     );
     ctx.line(&l);
+    for reg in regs.iter().flatten() {
+        enc_line(ctx, reg);
+    }
+}
+
+/// Codec-side and accessor observations of a bitfield value that was reached through the mutation
+/// API (C01, C03, C07, C10, C14 quantify over *every* value, not only freshly built ones).
+fn enc_line<F: Flav>(ctx: &mut Ctx, b: &F) {
+    let (len, bits, _, _, _, slice) = b.observe();
+    let ssz = catch(|| b.as_ssz_bytes());
+    let blen = match catch(|| b.ssz_bytes_len()) {
+        Caught::Val(n) => n.to_string(),
+        Caught::Panic => "panic".into(),
+    };
+    let (ssz_s, rt, app, asb) = match &ssz {
+        Caught::Val(bytes) => {
+            let rt = match catch(|| F::from_ssz_bytes(bytes)) {
+                Caught::Val(Ok(y)) => {
+                    if y == *b {
+                        "1"
+                    } else {
+                        "0"
+                    }
+                }
+                Caught::Val(Err(_)) => "0",
+                Caught::Panic => "panic",
+            };
+            let app = match catch(|| {
+                let mut buf = vec![0xAAu8, 0x55, 0xFF];
+                b.ssz_append(&mut buf);
+                buf
+            }) {
+                Caught::Val(v) => hex(&v),
+                Caught::Panic => "panic".into(),
+            };
+            let asb = match catch(|| ssz::ssz_encode(b)) {
+                Caught::Val(v) => hex(&v),
+                Caught::Panic => "panic".into(),
+            };
+            (hex(bytes), rt.to_string(), app, asb)
+        }
+        Caught::Panic => ("panic".into(), "panic".into(), "panic".into(), "panic".into()),
+    };
+    let into = match catch(|| b.clone().into_bytes_()) {
+        Caught::Val(v) => hex(&v),
+        Caught::Panic => "panic".into(),
+    };
+    // get() at and around the length: failed reads are errors, reads below the length are the bits
+    let mut probes = vec![0usize, len.saturating_sub(1), len, len + 1, 8 * slice.len(), 8 * slice.len() + 1, usize::MAX];
+    if len > 9 {
+        probes.push(len / 2);
+        probes.push(8 * (len / 8));
+    }
+    let gets: Vec<String> = probes
+        .iter()
+        .map(|&i| {
+            let g = match catch(|| b.get_(i)) {
+                Caught::Val(Ok(true)) => "1",
+                Caught::Val(Ok(false)) => "0",
+                Caught::Val(Err(())) => "e",
+                Caught::Panic => "p",
+            };
+            format!("{}={}", i, g)
+        })
+        .collect();
+    ctx.line(&format!(
+        "bfenc\t{}\t{}\t{}\t{}\t{}\t{}\t{}\t{}\t{}\t{}\t{}",
+        F::name(),
+        bits,
+        ssz_s,
+        blen,
+        rt,
+        app,
+        asb,
+        into,
+        hex(&b.raw_()),
+        b.empty_() as u8,
+        gets.join(",")
+    ));
 }
 
 fn gen_index(r: &mut Rng, cap: usize) -> usize {
@@ -580,17 +674,23 @@ where
         F::arbitrary(&mut u).map_err(|_| ())
     }) {
         Caught::Val(Ok(x)) => {
-            let rt = match F::from_ssz_bytes(&x.as_ssz_bytes()) {
-                Ok(y) => {
+            // a generated value that makes its own accessors or encoder panic is an invalid value
+            let rt = match catch(|| F::from_ssz_bytes(&x.as_ssz_bytes())) {
+                Caught::Val(Ok(y)) => {
                     if y == x {
                         "rt"
                     } else {
                         "nort"
                     }
                 }
-                Err(_) => "nort",
+                Caught::Val(Err(_)) => "nort",
+                Caught::Panic => "nort-panic",
             };
-            format!("ok {} {}", x.observe().1, rt)
+            let (len, bits, nsb, _, _, slice) = x.observe();
+            // validity beyond the round trip: minimal byte view, no bit at or beyond the length
+            let ones = bits.chars().filter(|c| *c == '1').count();
+            let wf = if slice.len() == std::cmp::max(1, (len + 7) / 8) && nsb == ones { "wf" } else { "notwf" };
+            format!("ok {} {} {}", bits, rt, wf)
         }
         Caught::Val(Err(_)) => "err".into(),
         Caught::Panic => "panic".into(),
